@@ -827,12 +827,20 @@ impl ReCompiler {
                 Ok(Operation::from(Repeat::new(ret, min, max, true)))
             }
         } else if let Some(match_length) = ret.get_match_length() {
-            Ok(Operation::from(ReluctantFixed::new(
-                ret,
-                min,
-                max,
-                match_length,
-            )))
+            if match_length > 0 {
+                Ok(Operation::from(ReluctantFixed::new(
+                    ret,
+                    min,
+                    max,
+                    match_length,
+                )))
+            } else if min == 0 {
+                // same treatment as in the greedy case: a fixed-length
+                // iterator over a zero-width operand would never advance
+                Ok(Operation::from(Nothing))
+            } else {
+                Ok(ret)
+            }
         } else {
             Ok(Operation::from(Repeat::new(ret, min, max, false)))
         }
